@@ -18,6 +18,7 @@ def err_kind(e):
     if isinstance(e, AssertionError): return ERR_ASSERT
     if isinstance(e, IndexError): return ERR_INDEX
     if isinstance(e, (AttributeError, TypeError)): return 6
+    if isinstance(e, NotImplementedError): return 7
     if isinstance(e, RuntimeError):
         s = str(e)
         if 'adding size' in s or 'Padding' in s: return ERR_PADSIZE
